@@ -8,15 +8,15 @@ MODES = ['default', 'default', 'default', 'kill', 'kill', 'mem', 'fast']
 
 
 def generate(seed, tier='quick', index=0):
-    return dc.generate(PROPERTY, seed, tier, MODES, constraint_share=0.25)
+    return dc.generate(PROPERTY, seed, tier, MODES, constraint_share=0.25, conn_share=0.08)
 
 
 def execute(trace):
     return dc.execute(PROPERTY, trace)
 
 
-RULE = ('Each run generates a DSG spec (selection choices, incompatibilities, design-variable nodes; connection '
-        'choices are validated at the assign_enc level by C12 and are not generated here), builds a GraphProcessor in a drawn mode - '
+RULE = ('Each run generates a DSG spec (selection choices, incompatibilities, design-variable nodes, in 8% of the runs a connection choice with conditional connectors and exclusions, '
+        'no grouping connectors), builds a GraphProcessor in a drawn mode - '
         'default, complete analysis killed by the time limiter at a drawn delivery point (fast encoder), MemoryError in the '
         'complete analysis (fast encoder), fast '
         'encoder requested - and decodes the whole declared space (<= 300 vectors) or 120 sampled vectors, both create '
